@@ -934,6 +934,13 @@ class FnRun(FnAnalysis):
         # ---- explicit panics
         if name.startswith("core::panicking::") or name.startswith("std::rt::begin_panic") or name.startswith("core::option::expect_failed") or name.startswith("core::result::unwrap_failed"):
             mac = (t.get("cspan") or {}).get("omac") or (t.get("cspan") or {}).get("mac") or last
+            if str(mac).startswith("debug_assert") and not os.environ.get("C06_DEBUG_ASSERT_SITES"):
+                # a debug-only assertion: compiled out of release builds, and the invariants such assertions state (a
+                # prefix of a string, "split yields at least one part", min <= max of a running pair) are beyond this
+                # engine; counted, not reported (DESIGN.md section 19g)
+                self.prog.debug_asserts = getattr(self.prog, "debug_asserts", 0) + (1 if self.collect else 0)
+                self.assign(st, dest, None)
+                return
             self.add_site((bi, "T"), "R-PANIC", "panic", t.get("cspan") or span, False, "explicit panic (`%s!`) is reachable" % mac, "panic %s" % mac, True)
             self.assign(st, dest, None)
             return
@@ -1072,6 +1079,28 @@ class FnRun(FnAnalysis):
             sig = "%s on %s" % (last, (v[1] if v and v[0] == "opt" else "unknown"))
             self.add_site((bi, "T"), "R-PANIC", last, span, ok, why, sig, True)
             res = out
+        elif last == "filter" and _c(name, "option::Option") and len(args) == 2 and (args[0] is None or (args[0][0] == "opt" and args[0][1] == "some")):
+            # `opt.filter(|n| *n <= CAP)`: what is left satisfies the predicate
+            pb = self.prog.pred_bound(_re.sub(r"^&(mut )?", "", self.arg_local_ty(t["args"][1])))
+            v0 = args[0][2] if args[0] else None
+            if pb is not None and v0 and v0[0] == "int":
+                v0 = self.refresh(st, v0)
+                res = ("opt", "some", ("int", None, v0[2], min(v0[3], pb), v0[4], frozenset()))
+            elif pb is not None and v0 is None:
+                mo_ = _re.search(r"Option<(u8|u16|u32|u64|usize)>", dty or "")
+                m_ = {"usize": "u64"}.get(mo_.group(1), mo_.group(1)) if mo_ else None
+                if m_:
+                    lo_, hi_ = INT_BOUNDS[m_]
+                    res = ("opt", "some", ("int", None, lo_, min(hi_, pb), True, frozenset()))
+                else:
+                    res = args[0]
+            else:
+                res = args[0]
+            handled = res is not None
+        elif last == "unwrap_or" and (_c(name, "option::Option") or _c(name, "result::Result")) and len(args) == 2 and args[0] and args[0][0] == "opt" and args[0][1] == "some" \
+                and args[0][2] and args[0][2][0] == "int" and args[1] and args[1][0] == "int":
+            a_, d_ = self.refresh(st, args[0][2]), self.refresh(st, args[1])
+            res = ("int", None, min(a_[2], d_[2]), max(a_[3], d_[3]), a_[4] or d_[4], frozenset())
         elif last == "branch" and _c(decl, "ops::try_trait::Try"):
             res = args[0] if args and args[0] and args[0][0] == "opt" else None
         elif last == "map_err" and args and args[0] and args[0][0] == "opt" and args[0][1] == "guard":
@@ -1962,6 +1991,39 @@ class Program:
                 if "::tests::" in name or name.startswith("tests::") or "::test::" in name:
                     continue
                 self.runs[name] = FnRun(self, name, m)
+
+    def pred_bound(self, closure_ty):
+        """C when the closure of that type is a predicate `|n| *n <= C` / `*n < C` on one integer parameter (the upper bound
+        of what `Option::filter` lets through), else None"""
+        if not hasattr(self, "_pred"):
+            self._pred = {}
+            for name, ms in self.facts.mir.items():
+                if not _re.search(r"\{closure#\d+\}$", name) or len(ms) != 1 or ms[0]["arg_count"] != 2:
+                    continue
+                m = ms[0]
+                ty = _re.sub(r"^&(mut )?", "", m["locals"][1]["ty"])
+                if m["locals"][0]["ty"] != "bool" or len(m["blocks"]) > 2:
+                    continue
+                cands = []
+                alias = {2}
+                for b in m["blocks"]:
+                    for st_ in b["stmts"]:
+                        rv = st_.get("rv") or {}
+                        if st_.get("k") == "Assign" and rv.get("k") == "Use" and not st_["place"].get("p") and st_["place"]["l"] != 0:
+                            pu = rv["a"].get("copy") or rv["a"].get("move")
+                            if pu and pu["l"] in alias and all(x == "*" for x in (pu.get("p") or [])):
+                                alias.add(st_["place"]["l"])
+                            continue
+                        if st_.get("k") == "Assign" and rv.get("k") == "BinaryOp" and rv.get("op") in ("Le", "Lt") and not st_["place"].get("p") and st_["place"]["l"] == 0:
+                            pa = rv["a"].get("copy") or rv["a"].get("move")
+                            cb = rv["b"].get("const") if isinstance(rv["b"], dict) else None
+                            if pa and pa["l"] in alias and all(x == "*" for x in (pa.get("p") or [])) and cb and "int" in cb:
+                                cands.append(cb["int"] if rv["op"] == "Le" else cb["int"] - 1)
+                        elif st_.get("k") == "Assign" and not (st_["place"].get("p")) and st_["place"]["l"] == 0:
+                            cands.append(None)
+                if len(cands) == 1 and cands[0] is not None:
+                    self._pred[ty] = cands[0]
+        return self._pred.get(closure_ty)
 
     @staticmethod
     def _adaptor_closures(facts):
